@@ -106,7 +106,19 @@ def node(depth=2, tfy=True):
 
 def html_root():
     n = node(1)
-    head = st.builds(lambda a, k: {"k": "tag", "name": "head", "ws": True, "attrs": a, "kids": k}, ATTRS, st.lists(st.one_of(n, st.just({"k": "tag", "name": "title", "ws": True, "attrs": [], "kids": [{"k": "text", "s": "user"}]})), max_size=3))
+    usual = st.sampled_from(
+        [
+            {"k": "tag", "name": "title", "ws": True, "attrs": [], "kids": [{"k": "text", "s": "user"}]},
+            {"k": "tag", "name": "meta", "ws": True, "attrs": [["charset", "latin1"]], "kids": []},
+            {"k": "tag", "name": "meta", "ws": True, "attrs": [["charset", "utf-8"]], "kids": []},
+            {"k": "tag", "name": "meta", "ws": True, "attrs": [["http-equiv", "Content-Type"], ["content", "text/html; charset=utf-8"]], "kids": []},
+            {"k": "tag", "name": "base", "ws": True, "attrs": [["href", "/app/"]], "kids": []},
+            {"k": "tag", "name": "link", "ws": True, "attrs": [["rel", "stylesheet"], ["href", "user.css"]], "kids": []},
+            {"k": "tag", "name": "script", "ws": True, "attrs": [["type", "application/html-dependencies"]], "kids": [{"k": "text", "s": "user[0]"}]},
+            {"k": "tag", "name": "script", "ws": True, "attrs": [["src", "user.js"]], "kids": []},
+        ]
+    )
+    head = st.builds(lambda a, k: {"k": "tag", "name": "head", "ws": True, "attrs": a, "kids": k}, ATTRS, st.lists(st.one_of(n, usual, usual), max_size=3))
     body = st.builds(lambda a, k: {"k": "tag", "name": "body", "ws": True, "attrs": a, "kids": k}, ATTRS, st.lists(n, max_size=3))
 
     def mk(attrs, before, h, mid, b, after, ws, body_first):
@@ -137,6 +149,7 @@ def case_strategy():
             "kw": KW,
             "lib": st.sampled_from([None, "lib", "a/b", "lib", "lib/", "/", "/static/lib", ""]),
             "iv": st.booleans(),
+            "mode": st.sampled_from(["invisible", "invisible", "json"]),
         }
     )
 
@@ -250,6 +263,18 @@ def _shape(nodes):
 def body_assemble(case, note):
     import htmltools as h
 
+    # the global that decides how str() shows dependencies is part of the environment a document is rendered in
+    saved = h.html_dependency_render_mode
+    h.html_dependency_render_mode = case.get("mode", "invisible")
+    try:
+        _assemble_body(case, note)
+    finally:
+        h.html_dependency_render_mode = saved
+
+
+def _assemble_body(case, note):
+    import htmltools as h
+
     if _shape(case["content"]) != _shape(expand(case["content"])):
         # whether e.g. [<body>, object expanding to nothing] counts as "a lone <body>" is not stated: not asserted
         note(False, "ambiguous-shape-skipped")
@@ -298,6 +323,8 @@ def body_assemble(case, note):
         "rendered-again-after-change" if mutated else "",
         "inline-body" if shape == "body" and not case["content"][0]["ws"] else "",
         "body-plus-more" if len(case["content"]) > 1 and case["content"][0]["k"] == "tag" and case["content"][0]["name"] == "body" else "",
+        "json-render-mode" if case.get("mode") == "json" and res else "",
+        "user-head-with-own-meta/link/script" if user_head and any(k["k"] == "tag" and k["name"] in ("meta", "base", "link", "script") for k in _user_head_kids(case["content"])) else "",
     )
 
 
@@ -388,11 +415,14 @@ def _structure(html: str, case, res, shape):
     check(root_opens == 1, f"{root_opens} root <html> elements")
     check(heads == 1, f"<html> has {heads} <head> children")
     check(head_first is not None and head_first.name == "meta" and head_first.attrs == [("charset", "utf-8")] and head_first.selfclosing, "<head> does not start with <meta charset=\"utf-8\"/>", head_first)
+    # the user's own <head> children come first (kept in order), whatever they are
+    own = [k for k in _user_head_kids(expand(case["content"])) if k["k"] == "tag"] if shape == "html" else []
+    own_listings = [("".join(x["s"] for x in k["kids"] if x["k"] == "text")) for k in own if k["name"] == "script" and dict(map(tuple, k["attrs"])).get("type") == "application/html-dependencies"]
+    exp_urls = [v for k in own for a, v in k["attrs"] if (k["name"] == "script" and a == "src") or (k["name"] == "link" and a == "href")]
     if res:
-        check(listings == [D.listing(res)], "dependency listing script missing, duplicated or wrong", D.listing(res), listings)
+        check(listings == own_listings + [D.listing(res)], "dependency listing script missing, duplicated or wrong", D.listing(res), listings)
     else:
-        check(listings == [], "listing script present without dependencies")
-    exp_urls = []
+        check(listings == own_listings, "listing script present without dependencies")
     for d in res:
         for s in D.as_list(d.get("stylesheet")):
             exp_urls.append(D.url(d, s["href"], case["lib"], case["iv"]))
@@ -441,7 +471,7 @@ CLAUSES = [
         quick=700,
         thorough=10000,
         shards_quick=4,
-        required=("shape:html", "shape:body", "shape:fragment", "later-content", "user-head-with-dep", "kw-collides", "version-collision", "headc", "no-deps", "head-after-body", "body-plus-more", "rendered-again-after-change", "inline-body"),
+        required=("shape:html", "shape:body", "shape:fragment", "later-content", "user-head-with-dep", "kw-collides", "version-collision", "headc", "no-deps", "head-after-body", "body-plus-more", "rendered-again-after-change", "inline-body", "json-render-mode", "user-head-with-own-meta/link/script"),
         rule="see RULE",
     ),
 ]
